@@ -71,9 +71,9 @@ Proof. intros H; apply H. Qed.
 Lemma lexto_brk st s st' : lexto cls st s st' -> ls_brk st' = ls_brk st.
 Proof. intros H; apply H. Qed.
 Lemma lexto_col st s st' : lexto cls st s st' -> 1 <= ls_col st -> 1 <= ls_col st'.
-Proof. intros H. apply steps_col. apply H. Qed.
+Proof. intros H. exact (steps_col cls _ _ (proj1 H)). Qed.
 Lemma lextoB_col st s st' : lextoB st s st' -> 1 <= ls_col st -> 1 <= ls_col st'.
-Proof. intros H. apply steps_col. apply H. Qed.
+Proof. intros H. exact (steps_col cls _ _ (proj1 H)). Qed.
 
 Lemma wbb_of p : u_word cls p = false -> wbb (Some p) = true.
 Proof. intros H. unfold word_boundary_before. rewrite H. reflexivity. Qed.
@@ -182,11 +182,11 @@ Proof.
     assert (S3 : ls_spans st3 = []) by (rewrite (lexto_spans _ _ _ _ L3); exact S2).
     assert (B3 : ls_brk st3 = p :: b) by (rewrite (lexto_brk _ _ _ L3); exact B2).
     destruct (G_rbr cls st3 rest p b I3 S3 B3) as (st4 & G4).
-    exists st4. split; [|split; [exact (gstep_in _ _ _ _ _ _ _ _ G4)|split; [exact (gstep_brk _ _ _ _ _ _ _ _ G4)|]]].
+    exists st4. split; [|split; [exact (gstep_in _ _ _ _ _ _ _ G4)|split; [exact (gstep_brk _ _ _ _ _ _ _ G4)|]]].
     + eapply lextoB_trans; [exact (lexto_B _ _ _ L1)|]. eapply lextoB_trans; [exact (lexto_B _ _ _ L2)|].
       eapply lextoB_trans; [exact (lexto_B _ _ _ L3)|]. eapply lextoB_gstep; [exact G4|reflexivity|left; reflexivity].
-    + split; [rewrite (gstep_spans _ _ _ _ _ _ _ _ G4); exact S3|]. split; [exact (gstep_pos _ _ _ _ _ _ _ _ G4)|].
-      pose proof (gstep_col _ _ _ _ _ _ _ _ G4). pose proof (lexto_col _ _ _ L1 Hcol) as C1.
+    + split; [rewrite (gstep_spans _ _ _ _ _ _ _ G4); exact S3|]. split; [exact (gstep_pos _ _ _ _ _ _ _ G4)|].
+      pose proof (gstep_col _ _ _ _ _ _ _ G4). pose proof (lexto_col _ _ _ L1 Hcol) as C1.
       pose proof (lexto_col _ _ _ L2 C1) as C2. pose proof (lexto_col _ _ _ L3 C2). lia.
   - (* an item followed by a comma *)
     cbn [map] in I1. cbn [app] in I1.
@@ -194,12 +194,12 @@ Proof.
     assert (S2 : ls_spans st2 = []) by (rewrite (lexto_spans _ _ _ _ L2); exact S1).
     assert (B2 : ls_brk st2 = p :: b) by (rewrite (lexto_brk _ _ _ L2); exact B1).
     destruct (G_comma cls st2 _ I2 S2) as (st3 & G3).
-    assert (S3 : ls_spans st3 = []) by (rewrite (gstep_spans _ _ _ _ _ _ _ _ G3); exact S2).
-    assert (B3 : ls_brk st3 = p :: b) by (rewrite (gstep_brk _ _ _ _ _ _ _ _ G3); exact B2).
-    assert (W3 : wbb (ls_prev st3) = true) by (rewrite (gstep_prev _ _ _ _ _ _ _ _ G3); apply wbb_of, u_word_false; lia).
+    assert (S3 : ls_spans st3 = []) by (rewrite (gstep_spans _ _ _ _ _ _ _ G3); exact S2).
+    assert (B3 : ls_brk st3 = p :: b) by (rewrite (gstep_brk _ _ _ _ _ _ _ G3); exact B2).
+    assert (W3 : wbb (ls_prev st3) = true) by (rewrite (gstep_prev _ _ _ _ _ _ _ G3); apply wbb_of, u_word_false; lia).
     assert (C3 : 1 <= ls_col st3).
-    { pose proof (gstep_col _ _ _ _ _ _ _ _ G3). pose proof (lexto_col _ _ _ L1 Hcol) as C1. pose proof (lexto_col _ _ _ L2 C1). lia. }
-    destruct (IH pre2 st3 rest p b ltac:(discriminate) Hxs Sxs (gstep_in _ _ _ _ _ _ _ _ G3) B3 S3 (gstep_pos _ _ _ _ _ _ _ _ G3) W3 C3)
+    { pose proof (gstep_col _ _ _ _ _ _ _ G3). pose proof (lexto_col _ _ _ L1 Hcol) as C1. pose proof (lexto_col _ _ _ L2 C1). lia. }
+    destruct (IH pre2 st3 rest p b ltac:(discriminate) Hxs Sxs (gstep_in _ _ _ _ _ _ _ G3) B3 S3 (gstep_pos _ _ _ _ _ _ _ G3) W3 C3)
       as (st4 & L4 & I4 & B4 & S4 & P4 & C4).
     exists st4. split; [|repeat split; assumption].
     eapply lextoB_trans; [exact (lexto_B _ _ _ L1)|]. eapply lextoB_trans; [exact (lexto_B _ _ _ L2)|].
@@ -228,13 +228,13 @@ Proof.
     + (* [] *)
       cbn [val_text val_sh] in *. unfold s_empty_list in Hin. cbn [app] in Hin.
       destruct (G_lbr cls st _ Hin Hsp) as (st1 & p & G1).
-      assert (S1 : ls_spans st1 = []) by (rewrite (gstep_spans _ _ _ _ _ _ _ _ G1); exact Hsp).
-      destruct (G_rbr cls st1 _ p (ls_brk st) (gstep_in _ _ _ _ _ _ _ _ G1) S1 (gstep_brk _ _ _ _ _ _ _ _ G1)) as (st2 & G2).
-      exists st2. split; [|split; [exact (gstep_in _ _ _ _ _ _ _ _ G2)|split; [|exact (gstep_pos _ _ _ _ _ _ _ _ G2)]]].
-      * apply lextoB_lexto; [|exact (gstep_brk _ _ _ _ _ _ _ _ G2)].
+      assert (S1 : ls_spans st1 = []) by (rewrite (gstep_spans _ _ _ _ _ _ _ G1); exact Hsp).
+      destruct (G_rbr cls st1 _ p (ls_brk st) (gstep_in _ _ _ _ _ _ _ G1) S1 (gstep_brk _ _ _ _ _ _ _ G1)) as (st2 & G2).
+      exists st2. split; [|split; [exact (gstep_in _ _ _ _ _ _ _ G2)|split; [|exact (gstep_pos _ _ _ _ _ _ _ G2)]]].
+      * apply lextoB_lexto; [|exact (gstep_brk _ _ _ _ _ _ _ G2)].
         change [(LIST_START, None); (LIST_END, None)] with ([(LIST_START, @None tvalue)] ++ [(LIST_END, @None tvalue)]).
         eapply lextoB_trans; eapply lextoB_gstep; try eassumption; try reflexivity; left; reflexivity.
-      * pose proof (gstep_col _ _ _ _ _ _ _ _ G1). pose proof (gstep_col _ _ _ _ _ _ _ _ G2). lia.
+      * pose proof (gstep_col _ _ _ _ _ _ _ G1). pose proof (gstep_col _ _ _ _ _ _ _ G2). lia.
     + (* non-empty *)
       set (items := x :: xs) in *.
       assert (Hbody : forall g2 gp g1,
@@ -243,12 +243,12 @@ Proof.
                             ls_in st' = z :: r /\ 1 < ls_col st' /\ ls_pos st' <> 0).
       { intros g2 gp g1 Hin'.
         destruct (G_lbr cls st _ Hin' Hsp) as (st1 & p & G1).
-        assert (S1 : ls_spans st1 = []) by (rewrite (gstep_spans _ _ _ _ _ _ _ _ G1); exact Hsp).
-        assert (W1 : wbb (ls_prev st1) = true) by (rewrite (gstep_prev _ _ _ _ _ _ _ _ G1); apply wbb_of, u_word_false; lia).
-        assert (C1 : 1 <= ls_col st1) by (pose proof (gstep_col _ _ _ _ _ _ _ _ G1); lia).
+        assert (S1 : ls_spans st1 = []) by (rewrite (gstep_spans _ _ _ _ _ _ _ G1); exact Hsp).
+        assert (W1 : wbb (ls_prev st1) = true) by (rewrite (gstep_prev _ _ _ _ _ _ _ G1); apply wbb_of, u_word_false; lia).
+        assert (C1 : 1 <= ls_col st1) by (pose proof (gstep_col _ _ _ _ _ _ _ G1); lia).
         destruct (lex_body g2 gp items g1 st1 (z :: r) p (ls_brk st)) as (st2 & L2 & I2 & B2 & S2 & P2 & C2);
-          [discriminate|exact Hok|exact Hc|exact (gstep_in _ _ _ _ _ _ _ _ G1)|exact (gstep_brk _ _ _ _ _ _ _ _ G1)|exact S1
-          |exact (gstep_pos _ _ _ _ _ _ _ _ G1)|exact W1|exact C1|].
+          [discriminate|exact Hok|exact Hc|exact (gstep_in _ _ _ _ _ _ _ G1)|exact (gstep_brk _ _ _ _ _ _ _ G1)|exact S1
+          |exact (gstep_pos _ _ _ _ _ _ _ G1)|exact W1|exact C1|].
         exists st2. split; [|split; [exact I2|split; [exact C2|exact P2]]].
         apply lextoB_lexto; [|exact B2].
         change ((LIST_START, None) :: ?l) with ([(LIST_START, @None tvalue)] ++ l).
@@ -277,7 +277,7 @@ Proof.
   { split; [apply steps_one; exact Hs1|]. split; [exists []; split; [exact T1|constructor]|]. repeat split; assumption. }
   change (s_comment_pre ++ x :: c' ++ c_nl :: r) with (comment_line (x :: c') ++ c_nl :: r) in I1.
   destruct (G_comment cls st1 (x :: c') r Hok I1) as (st2 & G2); [rewrite S1; exact Hsp|].
-  exists st2. split; [|exact (gstep_in _ _ _ _ _ _ _ _ G2)].
+  exists st2. split; [|exact (gstep_in _ _ _ _ _ _ _ G2)].
   change (trail_sh (Some (x :: c'))) with ([] ++ [(COMMENT, Some (TVText (x :: c')))]).
   eapply lexto_trans; [exact L1|]. eapply lexto_gstep; [exact G2|reflexivity|right; reflexivity].
 Qed.
@@ -297,8 +297,8 @@ Proof.
     assert (S1 : ls_spans st1 = []) by (rewrite (lexto_spans _ _ _ _ L1); exact Hsp).
     change (c_slash :: c_slash :: t ++ ?z) with ((c_slash :: c_slash :: t) ++ z) in I1. rewrite <- Et in I1.
     destruct (G_comment cls st1 c _ Hc I1 S1) as (st2 & G2).
-    assert (S2 : ls_spans st2 = []) by (rewrite (gstep_spans _ _ _ _ _ _ _ _ G2); exact S1).
-    destruct (lex_newline cls st2 _ (gstep_in _ _ _ _ _ _ _ _ G2) S2) as (st3 & L3 & I3 & R3).
+    assert (S2 : ls_spans st2 = []) by (rewrite (gstep_spans _ _ _ _ _ _ _ G2); exact S1).
+    destruct (lex_newline cls st2 _ (gstep_in _ _ _ _ _ _ _ G2) S2) as (st3 & L3 & I3 & R3).
     destruct (IH st3 rest Hcs I3 R3) as (st4 & L4 & I4 & R4).
     exists st4. split; [|split; assumption].
     rewrite lead_sh_cons. eapply lexto_trans; [exact L1|].
@@ -374,18 +374,18 @@ Proof.
   destruct (G_section cls st1 _ I1 S1) as (st2 & G2).
   { change (167 :: i ++ c_colon :: ?x) with ((167 :: i) ++ c_colon :: x). apply scan_version_no_dot; [|chr|apply u_digit_false; chr].
     intros y [<-|Hy]; [chr|exact (sid_chars i Hi y Hy)]. }
-  assert (S2 : ls_spans st2 = []) by (rewrite (gstep_spans _ _ _ _ _ _ _ _ G2); exact S1).
+  assert (S2 : ls_spans st2 = []) by (rewrite (gstep_spans _ _ _ _ _ _ _ G2); exact S1).
   (* the id *)
   assert (HID : exists st3, lexto cls st2 [id_sh idnum_digits i] st3 /\ ls_in st3 = c_colon :: c_colon :: k ++ annot_text a ++ c_nl :: rest /\
                             ls_spans st3 = []).
   { unfold sid_ok in Hi. apply orb_true_iff in Hi as [Hd|Hkk].
-    - destruct (G_num cls st2 i c_colon _ (digs_num_ok i Hd)) with (r := c_colon :: k ++ annot_text a ++ c_nl :: rest) as (st3 & G3);
-        [right; right; right; right; reflexivity|exact (gstep_in _ _ _ _ _ _ _ _ G2)|exact S2|].
-      exists st3. split; [|split; [exact (gstep_in _ _ _ _ _ _ _ _ G3)|rewrite (gstep_spans _ _ _ _ _ _ _ _ G3); exact S2]].
+    - destruct (G_num cls st2 i c_colon (c_colon :: k ++ annot_text a ++ c_nl :: rest) (digs_num_ok i Hd)) as (st3 & G3);
+        [right; right; right; right; reflexivity|exact (gstep_in _ _ _ _ _ _ _ G2)|exact S2|].
+      exists st3. split; [|split; [exact (gstep_in _ _ _ _ _ _ _ G3)|rewrite (gstep_spans _ _ _ _ _ _ _ G3); exact S2]].
       unfold id_sh. rewrite (digs_idnum i Hd). eapply lexto_gstep; [exact G3|reflexivity|right; reflexivity].
     - destruct (G_key cls st2 i c_colon (c_colon :: k ++ annot_text a ++ c_nl :: rest) Hkk) as (st3 & G3);
-        [left; reflexivity|exact (gstep_in _ _ _ _ _ _ _ _ G2)|exact (gstep_pos _ _ _ _ _ _ _ _ G2)|exact S2|].
-      exists st3. split; [|split; [exact (gstep_in _ _ _ _ _ _ _ _ G3)|rewrite (gstep_spans _ _ _ _ _ _ _ _ G3); exact S2]].
+        [left; reflexivity|exact (gstep_in _ _ _ _ _ _ _ G2)|exact (gstep_pos _ _ _ _ _ _ _ G2)|exact S2|].
+      exists st3. split; [|split; [exact (gstep_in _ _ _ _ _ _ _ G3)|rewrite (gstep_spans _ _ _ _ _ _ _ G3); exact S2]].
       unfold id_sh. rewrite (key_ok_idnum i Hkk). eapply lexto_gstep; [exact G3|reflexivity|right; reflexivity]. }
   destruct HID as (st3 & L3 & I3 & S3).
   destruct (T_assign cls st3 _ I3 S3) as (st4 & T4).
@@ -394,19 +394,19 @@ Proof.
   assert (HK : exists st6, lexto cls st4 ([(IDENTIFIER, Some (TVText k))] ++ annot_sh a) st6 /\ ls_in st6 = c_nl :: rest /\ ls_spans st6 = []).
   { destruct a as [[|x a']|]; [discriminate Hne| |].
     - cbn [annot_text annot_ok] in *. pose proof (tstep_in _ _ _ _ _ _ _ T4) as I4. rewrite <- !app_assoc in I4. cbn [app] in I4.
-      destruct (G_key cls st4 k c_lbr _ Hk) with (r := x :: a' ++ c_rbr :: c_nl :: rest) as (st5 & G5);
+      destruct (G_key cls st4 k c_lbr (x :: a' ++ c_rbr :: c_nl :: rest) Hk) as (st5 & G5);
         [right; left; reflexivity|exact I4|exact (tstep_pos _ _ _ _ _ _ _ T4)|exact S4|].
-      assert (S5 : ls_spans st5 = []) by (rewrite (gstep_spans _ _ _ _ _ _ _ _ G5); exact S4).
-      destruct (G_lbr cls st5 _ (gstep_in _ _ _ _ _ _ _ _ G5) S5) as (st6 & p & G6).
-      assert (S6 : ls_spans st6 = []) by (rewrite (gstep_spans _ _ _ _ _ _ _ _ G6); exact S5).
-      pose proof (gstep_in _ _ _ _ _ _ _ _ G6) as I6. change (x :: a' ++ ?z) with ((x :: a') ++ z) in I6.
-      destruct (G_key cls st6 (x :: a') c_rbr _ Ha) with (r := c_nl :: rest) as (st7 & G7);
-        [right; right; left; reflexivity|exact I6|exact (gstep_pos _ _ _ _ _ _ _ _ G6)|exact S6|].
-      assert (S7 : ls_spans st7 = []) by (rewrite (gstep_spans _ _ _ _ _ _ _ _ G7); exact S6).
+      assert (S5 : ls_spans st5 = []) by (rewrite (gstep_spans _ _ _ _ _ _ _ G5); exact S4).
+      destruct (G_lbr cls st5 _ (gstep_in _ _ _ _ _ _ _ G5) S5) as (st6 & p & G6).
+      assert (S6 : ls_spans st6 = []) by (rewrite (gstep_spans _ _ _ _ _ _ _ G6); exact S5).
+      pose proof (gstep_in _ _ _ _ _ _ _ G6) as I6. change (x :: a' ++ ?z) with ((x :: a') ++ z) in I6.
+      destruct (G_key cls st6 (x :: a') c_rbr (c_nl :: rest) Ha) as (st7 & G7);
+        [right; right; left; reflexivity|exact I6|exact (gstep_pos _ _ _ _ _ _ _ G6)|exact S6|].
+      assert (S7 : ls_spans st7 = []) by (rewrite (gstep_spans _ _ _ _ _ _ _ G7); exact S6).
       assert (B7 : ls_brk st7 = p :: ls_brk st5).
-      { rewrite (gstep_brk _ _ _ _ _ _ _ _ G7). exact (gstep_brk _ _ _ _ _ _ _ _ G6). }
-      destruct (G_rbr cls st7 _ p (ls_brk st5) (gstep_in _ _ _ _ _ _ _ _ G7) S7 B7) as (st8 & G8).
-      exists st8. split; [|split; [exact (gstep_in _ _ _ _ _ _ _ _ G8)|rewrite (gstep_spans _ _ _ _ _ _ _ _ G8); exact S7]].
+      { rewrite (gstep_brk _ _ _ _ _ _ _ G7). exact (gstep_brk _ _ _ _ _ _ _ G6). }
+      destruct (G_rbr cls st7 _ p (ls_brk st5) (gstep_in _ _ _ _ _ _ _ G7) S7 B7) as (st8 & G8).
+      exists st8. split; [|split; [exact (gstep_in _ _ _ _ _ _ _ G8)|rewrite (gstep_spans _ _ _ _ _ _ _ G8); exact S7]].
       apply lextoB_lexto.
       + cbn [annot_sh].
         change [(LIST_START, None); (IDENTIFIER, Some (TVText (x :: a'))); (LIST_END, None)]
@@ -415,11 +415,11 @@ Proof.
         eapply lextoB_trans; [eapply lextoB_gstep; [exact G6|reflexivity|left; reflexivity]|].
         eapply lextoB_trans; [eapply lextoB_gstep; [exact G7|reflexivity|right; reflexivity]|].
         eapply lextoB_gstep; [exact G8|reflexivity|left; reflexivity].
-      + rewrite (gstep_brk _ _ _ _ _ _ _ _ G8). exact (gstep_brk _ _ _ _ _ _ _ _ G5).
+      + rewrite (gstep_brk _ _ _ _ _ _ _ G8). exact (gstep_brk _ _ _ _ _ _ _ G5).
     - cbn [annot_text annot_sh] in *. pose proof (tstep_in _ _ _ _ _ _ _ T4) as I4. cbn [app] in I4.
       destruct (G_key cls st4 k c_nl rest Hk) as (st5 & G5);
         [right; right; right; reflexivity|exact I4|exact (tstep_pos _ _ _ _ _ _ _ T4)|exact S4|].
-      exists st5. split; [|split; [exact (gstep_in _ _ _ _ _ _ _ _ G5)|rewrite (gstep_spans _ _ _ _ _ _ _ _ G5); exact S4]].
+      exists st5. split; [|split; [exact (gstep_in _ _ _ _ _ _ _ G5)|rewrite (gstep_spans _ _ _ _ _ _ _ G5); exact S4]].
       rewrite app_nil_r. eapply lexto_gstep; [exact G5|reflexivity|right; reflexivity]. }
   destruct HK as (st6 & L6 & I6 & S6).
   destruct (lex_newline cls st6 rest I6 S6) as (st7 & L7 & I7 & R7).
